@@ -26,6 +26,8 @@ fn keep(id: u32, salt: u64, pct: u64) -> bool {
 }
 
 pub struct TInterp<'c, E: TElemT> {
+    /// never given an element or a capacity (C03: it must own no block)
+    pristine: bool,
     case: &'c Case,
     pub table: Table<E>,
     pub model: Vec<TM>,
@@ -59,6 +61,7 @@ impl<'c, E: TElemT> TInterp<'c, E> {
         let chaos = case.h("chaos") != 0;
         TInterp {
             case,
+            pristine: case.h("cap") == 0,
             table: Table::with_capacity_in(case.h("cap") as usize, CheckAlloc),
             model: Vec::new(),
             plan,
@@ -956,6 +959,9 @@ impl<'c, E: TElemT> TInterp<'c, E> {
         }
         let d = Self::dump_of(&self.table);
         d.validate(true)?;
+        if self.pristine && !d.is_singleton {
+            bad!("C03", "unallocated-collection-owns-block", "a table that was never given an element or a capacity owns a block of {} buckets", d.buckets());
+        }
         let asz = self.table.allocation_size();
         let want_sz = if d.is_singleton { 0 } else { d.predicted_block().1 };
         if asz != want_sz {
@@ -1010,6 +1016,23 @@ impl<'c, E: TElemT> TInterp<'c, E> {
         Ok(())
     }
 
+    /// see the map interpreter
+    fn track_pristine(&mut self, op: &Op) {
+        let a = op.a;
+        match op.code {
+            ops::FIND | ops::FIND_MUT | ops::RETAIN | ops::EXTRACT_IF | ops::DRAIN | ops::CLEAR | ops::SHRINK_TO_FIT | ops::GET_MANY_MUT
+            | ops::ITER_HASH | ops::CLONE_SWAP | ops::FILL_TO_CAPACITY | ops::REMOVE_RUN | ops::REMOVE_ALL_BUT | ops::REMOVE_NTH => {}
+            ops::RESERVE | ops::TRY_RESERVE if a[0] % 97 == 0 => {}
+            // into_iter replaces the table by a new, never-used one
+            ops::ITER => {
+                if a[0] % 3 == 2 {
+                    self.pristine = true;
+                }
+            }
+            _ => self.pristine = false,
+        }
+    }
+
     fn to_violation(&self, step: usize, b: Bad) -> Violation {
         Violation {
             property: b.0,
@@ -1029,6 +1052,7 @@ impl<'c, E: TElemT> TInterp<'c, E> {
         let counts0 = world::counts();
         let r = catch_unwind(AssertUnwindSafe(|| self.exec(op)));
         let counts1 = world::counts();
+        self.track_pristine(op);
         match r {
             Err(payload) => {
                 let msg = world::last_panic_message().unwrap_or_else(|| "<no message>".into());
@@ -1104,6 +1128,7 @@ impl<'c, E: TElemT> TInterp<'c, E> {
         }
         let r = catch_unwind(AssertUnwindSafe(|| self.exec(op)));
         let fired = world::disarm_fault();
+        self.track_pristine(op);
         let relabel = |v: Violation| Violation { property: "C04", kind: format!("after-panic:{}", v.kind), ..v };
         match r {
             Ok(Ok(())) => {
@@ -1127,6 +1152,7 @@ impl<'c, E: TElemT> TInterp<'c, E> {
         }
         self.out.count("faults_fired", 1);
         self.labels |= dump::L_FAULT_UNWOUND;
+        self.pristine = false;
         let st = alloc::stats();
         let grew = st.n_alloc > stats_before.n_alloc;
         if grew {
